@@ -477,6 +477,13 @@ func (fv *FV) isParamObj(o types.Object) bool {
 func (fv *FV) execIf(st *State, x *ast.IfStmt, ctl *Ctl, k Kont) {
 	run := func(st *State) {
 		c := fv.evalExpr(st, x.Cond)
+		if x.Else == nil && fv.effectFreeThen(st, c, x, ctl) {
+			// the then-branch falls through exactly once and leaves every variable, alias and ghost as it found them
+			// (e.g. a debug print block): its obligations were generated under the condition; both branches continue
+			// as one path, without the branch condition (dropping a hypothesis is sound)
+			k(st)
+			return
+		}
 		thenSt := st.clone()
 		thenSt.assume(c)
 		elseSt := st
@@ -738,4 +745,68 @@ func (fv *FV) execLitCall(st *State, lit *ast.FuncLit, args []Term, pos token.Po
 	fv.execBlock(st, lit.Body.List, inner, func(s2 *State) { inner.ret(s2, nil) })
 	fv.curSig, fv.curResObjs = saveSig, saveRes
 	fv.inlineDepth--
+}
+
+
+// effectFreeThen runs the then-branch of an else-less if on a scratch state. It reports true when the branch cannot leave
+// through return/break/continue, falls through exactly once, and that state equals the incoming one (variables, aliases,
+// ghosts, defers). The obligations generated during the trial are kept in that case and rolled back otherwise.
+func (fv *FV) effectFreeThen(st *State, c Term, x *ast.IfStmt, ctl *Ctl) bool {
+	simple := true
+	ast.Inspect(x.Body, func(n ast.Node) bool {
+		switch n.(type) {
+		case *ast.ReturnStmt, *ast.BranchStmt, *ast.ForStmt, *ast.RangeStmt, *ast.DeferStmt, *ast.GoStmt, *ast.FuncLit, *ast.AssignStmt, *ast.IncDecStmt, *ast.SendStmt, *ast.DeclStmt:
+			simple = false
+		}
+		return simple
+	})
+	if !simple {
+		return false
+	}
+	n0, b0, p0 := len(fv.obls), len(fv.batches), fv.paths
+	seq0 := map[string]int{}
+	for k, v := range fv.oblSeq {
+		seq0[k] = v
+	}
+	trial := st.clone()
+	trial.assume(c)
+	var ends []*State
+	escaped := false
+	tc := &Ctl{brk: map[string]Kont{}, cont: map[string]Kont{}, ret: func(*State, []Term) { escaped = true }}
+	for l := range ctl.brk {
+		tc.brk[l] = func(*State) { escaped = true }
+	}
+	for l := range ctl.cont {
+		tc.cont[l] = func(*State) { escaped = true }
+	}
+	fv.execBlock(trial, x.Body.List, tc, func(s *State) { ends = append(ends, s) })
+	same := !escaped && len(ends) == 1
+	if same {
+		e := ends[0]
+		same = len(e.vars) == len(st.vars) && len(e.alias) == len(st.alias) && len(e.ghost) == len(st.ghost) && len(e.defers) == len(st.defers) && len(e.escaped) == len(st.escaped)
+		if same {
+			for k, v := range st.vars {
+				if w, ok := e.vars[k]; !ok || w.S != v.S {
+					same = false
+				}
+			}
+			for k, v := range st.alias {
+				if w, ok := e.alias[k]; !ok || w != v {
+					same = false
+				}
+			}
+			for k, v := range st.ghost {
+				if w, ok := e.ghost[k]; !ok || w.S != v.S {
+					same = false
+				}
+			}
+		}
+	}
+	if same {
+		fv.note("if-branch without effect on the state merged with its fall-through")
+		return true
+	}
+	fv.obls, fv.batches, fv.paths = fv.obls[:n0], fv.batches[:b0], p0
+	fv.oblSeq = seq0
+	return false
 }
